@@ -104,6 +104,9 @@ type sharedVar struct {
 var (
 	sharedVars []sharedVar
 	modePtr    *decimal128.RoundingMode
+	// InternalTableWrites counts changes of the library's own tables that no
+	// client write explains (reported in the evidence, not a verdict).
+	InternalTableWrites int
 )
 
 func flatType(t reflect.Type) bool {
@@ -199,21 +202,32 @@ func sharedHashes(dst []uint64) []uint64 {
 
 // epochRun is the state of one pass over one epoch.
 type epochRun struct {
-	sim        *Sim
-	prog       *Program
-	ep         *Epoch
-	epIdx      int
-	opt        *Options
-	pool       *poolObjs
-	poolText   string
-	poolHash   uint64
-	baseShared []uint64
-	tmpShared  []uint64
-	ctxs       []*Ctx
-	results    [][]*Result
-	viol       []Violation
-	streams    []*Stream
-	plan       bool // apply the pre-emption plan (second pass)
+	sim         *Sim
+	prog        *Program
+	ep          *Epoch
+	epIdx       int
+	opt         *Options
+	pool        *poolObjs
+	poolText    string
+	poolHash    uint64
+	clientWrote bool // a client wrote to memory it got from the library since the last invariant check
+	baseShared  []uint64
+	tmpShared   []uint64
+	ctxs        []*Ctx
+	results     [][]*Result
+	viol        []Violation
+	streams     []*Stream
+	plan        bool // apply the pre-emption plan (second pass)
+}
+
+// noteClientWrite records that a client has just written to (or recycled)
+// memory it got from the library.
+//
+//go:norace
+func (e *epochRun) noteClientWrite() {
+	if e != nil {
+		e.clientWrote = true
+	}
 }
 
 //go:norace
@@ -240,10 +254,22 @@ func (e *epochRun) checkShared(t *Task) {
 	e.tmpShared = sharedHashes(e.tmpShared)
 	for i, h := range e.tmpShared {
 		if h != e.baseShared[i] {
-			e.addViol(VShared, op, "package-level variable "+sharedVars[i].name+" changed", task, idx)
+			// A table of the library changed. If a client has just written
+			// through memory the library gave it (Scribble, a recycled
+			// returned slice), the library handed out an alias of its own
+			// state: a violation. A write by the library itself to one of its
+			// own tables (lazy initialisation, say) is not judged by its mere
+			// existence: if it is unsynchronised the race build reports it, and
+			// if it changes a result the result oracles do.
+			if e.clientWrote {
+				e.addViol(VShared, op, "package-level variable "+sharedVars[i].name+" changed after the caller wrote to memory the library had returned", task, idx)
+			} else {
+				InternalTableWrites++
+			}
 			e.baseShared[i] = h
 		}
 	}
+	e.clientWrote = false
 	if h := e.pool.hash(); h != e.poolHash {
 		txt := e.pool.render()
 		e.addViol(VInput, op, "a shared by-reference input changed: "+diffText(e.poolText, txt), task, idx)
